@@ -2,6 +2,8 @@ package kit
 
 import (
 	"context"
+	"sync"
+	"time"
 
 	"github.com/voedger/voedger/pkg/appdef"
 	"github.com/voedger/voedger/pkg/goutils/timeu"
@@ -32,3 +34,57 @@ func AppQName() appdef.AppQName { return appQName }
 // FixedProvider: an IAppStorageProvider that hands out st for every app (like the uncached provider of
 // voedger, which returns one and the same storage per app)
 func FixedProvider(st istorage.IAppStorage) istorage.IAppStorageProvider { return &fixedProvider{st: st} }
+
+// holdingProvider hands out st for every app; its first AppStorage call is held until a second call arrives or
+// wait has passed (a caching provider that serialises its callers never lets the second one through)
+type holdingProvider struct {
+	fixedProvider
+	mu      sync.Mutex
+	calls   int
+	arrived chan struct{}
+	wait    time.Duration
+	Entered chan struct{} // closed when the first call is inside
+}
+
+func (p *holdingProvider) AppStorage(appdef.AppQName) (istorage.IAppStorage, error) {
+	p.mu.Lock()
+	p.calls++
+	n := p.calls
+	p.mu.Unlock()
+	switch n {
+	case 1:
+		close(p.Entered)
+		select {
+		case <-p.arrived:
+		case <-time.After(p.wait):
+		}
+	case 2:
+		close(p.arrived)
+	}
+	return p.st, nil
+}
+
+// TwoHandlesConcurrently asks provide(underlying) - a caching provider over a holding provider - for the storage
+// of the app from two goroutines: the second call starts once the first is inside the underlying provider, which
+// lets it go when the second arrives there too, or after wait. Returns both results.
+func TwoHandlesConcurrently(st istorage.IAppStorage, wait time.Duration, provide func(istorage.IAppStorageProvider) istorage.IAppStorageProvider) (h [2]istorage.IAppStorage, err error) {
+	hp := &holdingProvider{fixedProvider: fixedProvider{st: st}, arrived: make(chan struct{}), wait: wait, Entered: make(chan struct{})}
+	p := provide(hp)
+	var wg sync.WaitGroup
+	var errs [2]error
+	call := func(i int) {
+		defer wg.Done()
+		h[i], errs[i] = p.AppStorage(appQName)
+	}
+	wg.Add(2)
+	go call(0)
+	<-hp.Entered
+	go call(1)
+	wg.Wait()
+	for _, e := range errs {
+		if e != nil {
+			return h, e
+		}
+	}
+	return h, nil
+}
